@@ -203,6 +203,14 @@ def r13_quota(ctx):
                                     if isinstance(b_, ast.stmt) and b_ in cfg_of(g).of_stmt):
                         # `if high_quotient > E.quota: ... elect` (qpq): a test on a local that gates an election
                         cmps.append((g, c, c))
+        # one-parameter predicates on a candidate's tally (hasQuota, hasSurplus): the tally is measured against the quota, nothing else
+        for h_ in ri.helpers.values():
+            if len(h_.params) == 1:
+                for r in [n for n in h_.own_nodes() if isinstance(n, ast.Return) and isinstance(n.value, ast.Compare) and len(n.value.ops) == 1]:
+                    l_, r_ = r.value.left, r.value.comparators[0]
+                    if isinstance(l_, ast.Attribute) and l_.attr == 'vote' and isinstance(l_.value, ast.Name) and l_.value.id == h_.params[0]:
+                        ctx.check(ctx.canon(r_, h_) == 'E.quota', R, r, h_, 'a predicate on a candidate\'s tally compares it with the quota',
+                                  unparse(r.value), '`%s` measures the tally against `%s`, not the quota' % (unparse(r.value), unparse(r_)), nontrivial=False)
         need(cmps, '%s: no quota comparison found' % ri.cls.qualname)
         for g, c, anchor in cmps:
             conds = _branch_conds(ctx, g, anchor)
